@@ -26,6 +26,10 @@ PRELUDE3 = r'''exec 3>&1
 e() { echo "@m $1" >&3; return $2; }
 '''
 STYLE = {"probe": 'echo "@? $?"', "case_paren": False}
+# A probe that reports `$?` and hands the same status on, so the status of a list is still that of its last real command
+# (an `echo` probe makes every body end with status 0 and hides the status a compound command derives from its body).
+PRELUDE_KEEP = PRELUDE + 'p() { local s=$?; echo "@? $s"; return $s; }\n'
+PROBE_KEEP = "p"
 
 
 class Gen:
@@ -74,6 +78,9 @@ class Gen:
         if kind == "leaf":
             return self.leaf(ctx)
         if kind in ("and", "or"):
+            if r.random() < 0.15:
+                # the right operand reports the `$?` it starts with: what `a && echo $?` / `! a || echo $?` print
+                return (kind, self.node(d, ctx), ("raw", 'echo "@q $?"'))
             return (kind, self.node(d, ctx), self.node(d, ctx))
         if kind == "not":
             return ("not", self.node(d, ctx))
@@ -104,7 +111,9 @@ class Gen:
             items = []
             for _ in range(r.randint(1, 3)):
                 pats = r.sample(["a", "b", "a*", "*b", "?", "*", "c", "1", "2", "[12]"], r.choice([1, 1, 2]))
-                items.append((pats, self.seq(d, ctx, 2), r.choice([";;", ";;", ";&", ";;&"])))
+                # (an item may have no commands at all: `b) ;;` - its status is 0, also when a failing item fell through into it)
+                body = ("seq", []) if r.random() < 0.15 else self.seq(d, ctx, 2)
+                items.append((pats, body, r.choice([";;", ";;", ";&", ";;&"])))
             return ("case", word, items)
         if kind == "group":
             return ("group", self.seq(d, ctx, 3))
@@ -175,7 +184,7 @@ def render(node, probes=True, ind=0, style=None):
         for n in node[1]:
             out.append(render(n, probes, ind))
             if probes and n[0] != "ctl":
-                out.append(STYLE["probe"])
+                out.append(probes if isinstance(probes, str) else STYLE["probe"])
         return ("\n" + sp).join(out)
     if k in ("and", "or"):
         # && and || are left-associative with equal precedence: a left operand that is itself an and-or list is
